@@ -399,6 +399,16 @@ class TimestampProperty(Property):
         ), False
 
 
+def _contains_null_or_empty(value):
+    """Whether a JSON null, an empty list or an empty dictionary occurs
+    anywhere in (or is) the given dictionary/list value."""
+    if isinstance(value, dict):
+        return not value or any(_contains_null_or_empty(v) for v in value.values())
+    if isinstance(value, (list, tuple)):
+        return not value or any(_contains_null_or_empty(v) for v in value)
+    return value is None
+
+
 class DictionaryProperty(Property):
 
     def __init__(self, spec_version=DEFAULT_VERSION, **kwargs):
@@ -433,6 +443,11 @@ class DictionaryProperty(Property):
         for k, v in dictified.items():
             if v is None:
                 raise ValueError("The value for key '%s' must not be null" % k)
+            if _contains_null_or_empty(v):
+                raise ValueError(
+                    "The value for key '%s' must not contain nulls, empty "
+                    "lists or empty dictionaries" % k,
+                )
 
         return dictified, False
 
